@@ -153,7 +153,7 @@ class AnsiDecoder:
                 # Ignore invalid codes, because we want to be lenient
                 # An omitted parameter (as in ESC[m) defaults to 0 (reset)
                 codes = [
-                    min(255, int(_code) if _code else 0)
+                    (min(255, int(_code)) if len(_code) < 10 else 255) if _code else 0
                     for _code in sgr.split(";")
                     if _code.isdigit() or _code == ""
                 ]
